@@ -1045,6 +1045,20 @@ class Frame:
                 outs.append(fr.run())
             finally:
                 self.ip.stack.pop()
+            # an object handed over by non-const reference is the caller's object: what the callee assigned to it
+            # (or to members of it) is visible in the caller afterwards
+            if len(targets) == 1:
+                for i, p_ in enumerate(t.params):
+                    pt = p_.get('type') or ''
+                    if i >= len(args) or '&' not in pt or '&&' in pt or pt.lstrip().startswith('const '):
+                        continue
+                    a_ = strip(args[i], explicit=True)
+                    if a_.get('kind') != 'DeclRefExpr':
+                        continue
+                    aid = (a_.get('referencedDecl') or {}).get('id')
+                    newv = fr.env.vars.get(p_['id'])
+                    if aid in self.env.vars and newv is not None and newv is not argv[i] and newv != argv[i]:
+                        self.env.vars[aid] = phi([newv]) if False else newv
         res = phi(outs)
         return ('call', e.name or name, tuple(argv), res)
 
